@@ -731,3 +731,16 @@ def iterable_param_obligations(ctx: Context, rule: str, fi: FuncInfo) -> int:
                   construct=f"{arg.arg}: consumed at {[norm_text(parents.get(u, u))[:50] for u in uses]}")
         n += 1
     return n
+
+
+def guards(fi: FuncInfo, node: ast.AST, *, within: Optional[ast.AST] = None) -> list[tuple[str, bool]]:
+    """Atomic path conditions of `node` as (text of the positive form, polarity); composite
+    and/or tests are left out (their parts are listed).  `within` restricts to tests inside that node."""
+    out = []
+    for t, pol in positive_conditions(fi, node):
+        if isinstance(t, ast.BoolOp):
+            continue
+        if within is not None and not any(x is t or x is getattr(t, 'left', None) for x in ast.walk(within)):
+            continue
+        out.append((norm_text(t), pol))
+    return out
